@@ -380,3 +380,44 @@ func ReverseSubAfterLoss(res *fw.Result, seed int64, base int) error {
 	res.Eval(true, []interface{}{"reverse-sub-after-loss"})
 	return nil
 }
+
+// NoHandlerClient: a reverse call to a client that registered no handlers at all is a call to a method that
+// does not exist there: it must fail with method-not-found like on any other client, not block.
+func NoHandlerClient(res *fw.Result, seed int64, base int) error {
+	w, err := newWorld(seed+int64(base), true)
+	if err != nil {
+		return err
+	}
+	defer w.close()
+	c, err := w.connect(false)
+	if err != nil {
+		return err
+	}
+	sig := "reverse call to a client without handlers"
+	done := make(chan struct{})
+	var out Out
+	var rerr error
+	go func() {
+		defer close(done)
+		ctx, cc := context.WithTimeout(context.Background(), 8*time.Second)
+		defer cc()
+		out, rerr = c.api.Run(ctx, Spec{Tok: base + 1, Method: "Ident", N: 1, Bg: true})
+	}()
+	select {
+	case <-done:
+		switch {
+		case rerr != nil:
+			res.Add(fw.Finding{Kind: "monitor", Signature: sig + " forward call failed", Detail: fmt.Sprint(rerr)})
+		case len(out.Calls) != 1 || out.Calls[0].Err == "":
+			res.Add(fw.Finding{Kind: "monitor", Signature: sig + " no error", Detail: fmt.Sprintf("unexpected outcome %+v", out)})
+		case out.Calls[0].TookMs > 2000:
+			res.Add(fw.Finding{Kind: "monitor", Signature: sig + " slow failure", Detail: fmt.Sprintf("the reverse call took %d ms to fail", out.Calls[0].TookMs)})
+		}
+	case <-time.After(5 * time.Second):
+		res.Add(fw.Finding{Kind: "monitor", Signature: sig + " blocks", Detail: "a reverse call to a connected client that has no handlers had not returned after 5s: the client drops the request without answering it",
+			Case: map[string]interface{}{"scenario": "no-handler-client"}})
+	}
+	res.Count("no-handler-client")
+	res.Eval(true, []interface{}{"no-handler-client"})
+	return nil
+}
